@@ -38,6 +38,7 @@ def r1(ctx, only=None, rule_prefix=""):
         for s in sites:
             if s.fn == "parser::Parser::drop_lexem" and s.kind == "assert:Overflow:Sub" and not s.discharged and low is not None and low >= 0:
                 s.discharged = "D6 the cursor analysis T proves the parser cursor never falls below its value at the entry of parse"
+    all_sites = sites
     if only is not None:
         sites = [s for s in sites if only(s)]
     table = panics.load_table()
@@ -64,18 +65,58 @@ def r1(ctx, only=None, rule_prefix=""):
     # site any more covers one undischarged site of the same shape (kind + operand expression up to local names), wherever it
     # now lives.  The budget is one site per entry, so an additional unguarded site of that shape is still reported.
     budget = collections.Counter()
-    if only is None:
-        live_keys = {s.key for s in sites}
-        for k, e in table.items():
-            if k not in live_keys and e["class"] != "finding":
-                budget[panics.key_signature(k)] += 1
+    coarse = collections.Counter()
+    live_keys = {s.key for s in all_sites}
+    stale = [k for k, e in table.items() if k not in live_keys and e["class"] != "finding"]
+    if only is not None:
+        class _K:
+            pass
+        keep = []
+        for k in stale:
+            o = _K()
+            o.fn = k.split("|", 1)[0]
+            if only(o):
+                keep.append(k)
+        stale = keep
+    for k in stale:
+        budget[panics.key_signature(k)] += 1
     moved = 0
+    still = []
     for s in pending:
         if budget[s.sig] > 0:
             budget[s.sig] -= 1
             moved += 1
             ctx.discharged += 1
             continue
+        still.append(s)
+    # second chance: the operand was restructured as well (a chain split into locals, iter() -> keys()): what is left of the
+    # stale entries covers one site each of the same kind whose outermost callee is the same, in the same function or in a
+    # function that did not exist on the pinned tree (an extracted helper / closure)
+    import norm
+    known = norm.known_fns() or set()
+    left = []
+    for k in stale:
+        sg = panics.key_signature(k)
+        if budget[sg] > 0:
+            budget[sg] -= 1
+            left.append(k)
+    for k in left:
+        coarse[(panics.coarse_signature(panics.key_signature(k)), k.split("|", 1)[0])] += 1
+    pending = []
+    for s in still:
+        cs = panics.coarse_signature(s.sig)
+        hit = None
+        for (c_, fn_), cnt in coarse.items():
+            if cnt > 0 and c_ == cs and (fn_ == s.fn or s.fn not in known or s.fn.startswith(fn_ + "::{closure")):
+                hit = (c_, fn_)
+                break
+        if hit:
+            coarse[hit] -= 1
+            moved += 1
+            ctx.discharged += 1
+            continue
+        pending.append(s)
+    for s in pending:
         ctx.violation("%spanic/%s" % (rule_prefix, s.key), "%s (%s)" % (s.sp, s.fn),
                       "possible panic: %s on `%s` is neither guarded (no local discharge rule applies: no dominating "
                       "is_some/is_ok/len/contains_key/comparison guard on this operand) nor a reviewed site" %
